@@ -2,7 +2,7 @@
 # seed_detect.sh [ids...] : apply each confirmed seeded change to /repo, run the property's quick check, undo, record what fired
 cd /verif
 ids="$@"
-[ -z "$ids" ] && ids=$(ls seeded | grep -E '^C[0-9]+-[AB]$')
+[ -z "$ids" ] && ids=$(ls seeded | grep -E '^C[0-9]+-[A-Z]$')
 mkdir -p /root/detect
 for id in $ids; do
   prop=${id%-*}
